@@ -89,7 +89,7 @@ def execute(prop, ops=None, seed=None, idx=None, tier="quick", cfg=None, enabled
         signal.setitimer(signal.ITIMER_REAL, 0)
         signal.signal(signal.SIGALRM, old)
     if sess is not None:
-        res["violations"] = sess.violations
+        res["violations"] = sess.violations + sess.other_alarms
         res["stats"] = dict(sess.stats)
         res["steps"] = sess.step + 1
         res["outcomes"] = sess.outcomes
